@@ -180,14 +180,13 @@ func workerC04(r *vk.Run, w, n int, args []string) {
 		}
 		// reference matches, in input order (after --tail trimming)
 		eff := lines
-		// streaming filter (no sort, no tac) ignores --tail: F5 -> handled by C06; keep C04 on the list fzf searched
+		// --tail keeps the last N records (C06 checks that; F5 was repaired)
 		sortable := true
 		rq := refq.Parse(q, o.Ref)
 		if !rq.Sortable() || o.NoSort {
 			sortable = false
 		}
-		streaming := o.NoSort && !o.Tac
-		if tail > 0 && !streaming && len(lines) > tail {
+		if tail > 0 && len(lines) > tail {
 			eff = lines[len(lines)-tail:]
 		}
 		var want []string
